@@ -62,6 +62,7 @@ type wscript struct {
 	emsg       string
 	ekind      int  // how the handler builds the error it returns: 0 status error, 1 status error wrapped with %w, 2 plain Go error
 	mutate     bool // the sender scribbles over a message right after sending it
+	thirdParty bool // unary + cancel, over the wrapper: a third party cancels at any moment (the reference keeps the ordered cancel)
 	mdReuse    bool // the handler keeps changing the metadata map it handed to SetHeader / SendHeader / SetTrailer
 	lateCancel bool // return terminals on streams: the client cancels its context only after the call has completely ended on the server side and everything has come to rest, then reads the outcome
 	preDone    bool // cancel/deadline terminals: the context is already cancelled / past its deadline when the call is made
@@ -87,7 +88,7 @@ func (s wscript) String() string {
 		}
 	}
 	term := []string{"return-ok", fmt.Sprintf("return(%s,%q,%s)", s.code, s.emsg, []string{"status", "wrapped-status", "plain-error"}[s.ekind]), "client-cancel", "deadline"}[s.term]
-	return fmt.Sprintf("%s [%s] %s mutate=%v late-handler=%v md-reuse=%v pre-done=%v late-cancel=%v", []string{"unary", "sstream", "cstream", "bidi"}[s.shape], strings.Join(p, " "), term, s.mutate, s.late, s.mdReuse, s.preDone, s.lateCancel)
+	return fmt.Sprintf("%s [%s] %s mutate=%v late-handler=%v md-reuse=%v pre-done=%v late-cancel=%v third-party=%v", []string{"unary", "sstream", "cstream", "bidi"}[s.shape], strings.Join(p, " "), term, s.mutate, s.late, s.mdReuse, s.preDone, s.lateCancel, s.thirdParty)
 }
 
 func genWrapScript(t *Tape) wscript {
@@ -144,7 +145,10 @@ func genWrapScript(t *Tape) wscript {
 	}
 	if s.term == tCancel || s.term == tDeadline {
 		if s.shape == 0 {
-			// unary: the server itself triggers the client's cancel once it is waiting; nothing to add
+			// unary: the server itself triggers the client's cancel once it is waiting; nothing to add.
+			// (over the wrapper, sometimes: somebody else cancels the call at a moment of the scheduler's choosing - while
+			// the request is still on its way, too; only the client's outcome is specified then)
+			s.thirdParty = s.term == tCancel && t.Flag(1, 2)
 		} else {
 			last := -1
 			for i, r := range s.rounds {
@@ -211,6 +215,7 @@ func errClass(err error) string {
 // ---- the scripted server ------------------------------------------------------------------------------------------------
 
 type scriptServer struct {
+	noSelfCancel bool // the unary call is cancelled by a third party instead of by the handler
 	testproto.UnimplementedTestApiServer
 	s            wscript
 	yield        func(op string) // scheduling point (no-op on the reference transport)
@@ -286,7 +291,7 @@ func (sv *scriptServer) run(st srvStream, ctx context.Context, recv func() (stri
 		}
 		return status.Error(sv.s.code, sv.s.emsg)
 	case tCancel, tDeadline:
-		if sv.s.shape == 0 && sv.s.term == tCancel && !sv.s.preDone {
+		if sv.s.shape == 0 && sv.s.term == tCancel && !sv.s.preDone && !sv.noSelfCancel {
 			sv.cancelClient() // the client "cancels while the server is working": ordered after everything before
 		}
 		if sv.s.late {
@@ -408,6 +413,9 @@ func runWrapClient(s wscript, client testproto.TestApiClient, yield func(string)
 		var h, t metadata.MD
 		req := &testproto.UnaryRequest{Msg: "unary-request"}
 		resp, err := client.Unary(ctx, req, grpc.Header(&h), grpc.Trailer(&t))
+		if s.mutate {
+			req.Msg = "MUTATED-AFTER-SEND" // the call is over for the caller (however it ended): the request is the caller's again
+		}
 		if s.preDone {
 			// only the outcome is specified for a call that starts with a done context
 			obs("terminal -> %s", errClass(err))
@@ -671,6 +679,17 @@ func wrapRun(w *World) {
 	if s.term == tDeadline {
 		w.IdleAdvance, w.IdleAdvanceN = 4*time.Second, 3
 	}
+	if s.thirdParty {
+		sv.noSelfCancel = true
+		k := w.Tape.Choose(7)
+		w.Go("canceller", false, func(t *Task) {
+			for i := 0; i < k || cancelClient == nil; i++ {
+				t.Yield("wait")
+			}
+			cancelClient()
+		})
+		w.Fault("third-party-cancel")
+	}
 	w.Run()
 	if w.truncated {
 		return
@@ -715,7 +734,16 @@ func wrapRun(w *World) {
 			}
 		}
 	}
-	if s.preDone {
+	if s.thirdParty {
+		// cancelled by somebody else at some moment: the call ends as cancelled, whatever the handler had got round to
+		if len(tr.client) == 0 || tr.client[0] != "unary -> canceled" {
+			k := map[string]any{"what": "third-party-cancel"}
+			for a, b := range key {
+				k[a] = b
+			}
+			w.Violate("transcript-differs", fmt.Sprintf("script %s: a unary call cancelled by a third party\n  over the wrapper: %v\n  expected: [unary -> canceled]", s, tr.client), k)
+		}
+	} else if s.preDone {
 		w.Fault("pre-done-context")
 		want := "terminal -> " + map[int]string{tCancel: "canceled", tDeadline: "deadline"}[s.term]
 		if len(tr.client) != 1 || tr.client[0] != want {
